@@ -81,16 +81,63 @@ pub fn check_container<K: Kmer, V: Vmer>(name: &str, v: &V, model: &[u8], bexts:
     // iterator may override these for speed, but not change what they yield
     {
         let all: Vec<Vec<u8>> = (0..nk).map(|i| model[i..i + k].to_vec()).collect();
-        for n_skip in [0usize, 1, 4, 5, 6, 7, nk.saturating_sub(1), nk, nk + 3] {
-            let got = v.iter_kmers::<K>().nth(n_skip).map(|x| crate::ktypes::kseq(&x));
+        let is = |x: &K, i: usize| -> bool { i < nk && (0..k).all(|j| x.get(j) == model[i + j]) };
+        for n_skip in [0usize, 1, 4, 5, 6, 7, k.saturating_sub(1), k, k + 1, 2 * k + 1, nk.saturating_sub(1), nk, nk + 3] {
+            let mut it = v.iter_kmers::<K>();
+            let got = it.nth(n_skip).map(|x| crate::ktypes::kseq(&x));
             if got.as_ref() != all.get(n_skip) {
                 return Err(ctx(format!("iter_kmers().nth({}) yields {:?}, expected item {} of {}", n_skip, got.map(|g| to_ascii(&g)), n_skip, nk)));
             }
+            // ... and the iterator carries on from there: same items as plain iteration, to the end
+            let mut pos = (n_skip + 1).min(nk);
+            let first_after = pos;
+            for x in it.take(nk + 4) {
+                // the first few items after the skip are compared base by base, the rest counted
+                if pos < first_after + 4 && !is(&x, pos) {
+                    return Err(ctx(format!(
+                        "after iter_kmers().nth({}) the next() calls yield {} where item {} of {} is due",
+                        n_skip,
+                        to_ascii(&crate::ktypes::kseq(&x)),
+                        pos,
+                        nk
+                    )));
+                }
+                pos += 1;
+            }
+            if pos != nk {
+                return Err(ctx(format!("after iter_kmers().nth({}) {} items remain, expected {}", n_skip, pos.saturating_sub(n_skip + 1), nk.saturating_sub(n_skip + 1))));
+            }
+        }
+        // interleaved positioning calls on one iterator: nth(a), next(), nth(b), next(), next()
+        for (a, b) in [(k, 0usize), (k + 1, k), (1, k), (k, k + 2), (0, 2 * k), (3, 3)] {
             let mut it = v.iter_kmers::<K>();
-            let _ = it.nth(n_skip);
-            let rest = it.take(nk + 4).count();
-            if rest != nk.saturating_sub(n_skip + 1) {
-                return Err(ctx(format!("after iter_kmers().nth({}) {} items remain, expected {}", n_skip, rest, nk.saturating_sub(n_skip + 1))));
+            let mut cur = 0usize;
+            for (ci, call) in [Some(a), None, Some(b), None, None].iter().enumerate() {
+                let (got, adv) = match call {
+                    Some(n) => (it.nth(*n), *n),
+                    None => (it.next(), 0),
+                };
+                let due = if cur < nk && adv < nk - cur { Some(cur + adv) } else { None };
+                let ok = match (&got, due) {
+                    (None, None) => true,
+                    (Some(x), Some(i)) => is(x, i),
+                    _ => false,
+                };
+                if !ok {
+                    return Err(ctx(format!(
+                        "iter_kmers() call {} of [nth({}), next(), nth({}), next(), next()] yields {:?}, item {:?} of {} is due",
+                        ci,
+                        a,
+                        b,
+                        got.map(|x| to_ascii(&crate::ktypes::kseq(&x))),
+                        due,
+                        nk
+                    )));
+                }
+                cur = match due {
+                    Some(i) => i + 1,
+                    None => nk,
+                };
             }
         }
         for step in [5usize, 6, 7, 29] {
@@ -110,6 +157,15 @@ pub fn check_container<K: Kmer, V: Vmer>(name: &str, v: &V, model: &[u8], bexts:
         let ex_skip: Vec<(K, Exts)> = v.iter_kmer_exts::<K>(Exts::new(bexts)).skip(6).take(nk + 4).collect();
         if ex_skip.len() != nk.saturating_sub(6) {
             return Err(ctx(format!("iter_kmer_exts().skip(6) yields {} items, expected {}", ex_skip.len(), nk.saturating_sub(6))));
+        }
+        for (j, (km, _)) in ex_skip.iter().enumerate() {
+            if !is(km, j + 6) {
+                return Err(ctx(format!("iter_kmer_exts().skip(6) item {} is {}, not the k-mer at position {}", j, to_ascii(&crate::ktypes::kseq(km)), j + 6)));
+            }
+        }
+        let ex_k: Vec<(K, Exts)> = v.iter_kmer_exts::<K>(Exts::new(bexts)).skip(k + 1).take(nk + 4).collect();
+        if ex_k.len() != nk.saturating_sub(k + 1) || ex_k.iter().enumerate().any(|(j, (km, _))| !is(km, j + k + 1)) {
+            return Err(ctx(format!("iter_kmer_exts().skip({}) disagrees with plain iteration", k + 1)));
         }
     }
     if nk > 0 {
